@@ -85,6 +85,12 @@ package ports
 
 // the model filter as the discovery service sees it (items: the listing, nameExtractor: how an item is named);
 // passes / reflLen / reflIndex / fnapp: see internal/adapter/filter's contracts, whose GlobFilter.Apply refines this
+// one request inspector: it may buffer and replace the body, and writes only the profile it is handed
+//@ interface RequestInspector.Inspect(ctx, r, profile)
+//@   requires r != nil && profile != nil
+//@   modifies r.Body, object profile, ghost remaining, ghost backing, ghost released
+//@ interface RequestInspector.Name()
+
 //@ interface Filter.Apply(ctx, config, items, nameExtractor)
 //@   requires typeis(items, "[]*domain.ModelInfo") && (config != nil ==> len(config.Include) < 1000000 && len(config.Exclude) < 1000000)
 //@   modifies filter.GlobFilter.patternCache[all]
